@@ -4,7 +4,90 @@
 // compiled only under the build tag "verif").
 package latency
 
+// The running batch (start, totalDiff, count, min, max) is only touched under
+// Latency.mu. The windows (and their slots) are reached only through the tracker, by
+// functions that run with that lock held: update and its deferred export.
+//@ monitor Latency.mu protects start, totalDiff, count, min, max
+//@ pred WinOK(w *window) := w != nil && allocated(w.slots) && (forall j int :: 0 <= j && j < len(w.slots) ==> w.slots[j] != nil)
+
+// The clock, the latency function and the metadata sink are assumed not to touch the tracker.
+//@ func global Now
+//@ func field Latency.compute (ts, now)
+//@ func iface Metadata.SetInt (name, v)
+//@   note the metadata sink is assumed not to touch the tracker
+
+// Compute folds one latency sample into the running batch, under the lock.
 //@ func (*Latency).Compute
-//@   props C15
-//@   trusted latency internals are behind Latency.mu; not yet under contract
-//@   requires l != nil
+//@   props C15 C12
+//@   arith wrap
+//@   locks l
+//@   requires l != nil && l.compute != nil && l.scaleFactor != 0 && Now != nil
+//@   modifies l.start
+//@   ensures [one-sample-counted C15] l.count == wrap64s(old(l.count) + 1)
+//@   ensures [max-tracks-the-largest C15] l.max >= old(l.max)
+//@   ensures [min-tracks-the-smallest C15] old(l.min) != 0 ==> l.min <= old(l.min)
+
+// A non-empty slot is added to the window's totals and kept; an empty one is ignored.
+//@ func (*window).add
+//@   props C15 C12
+//@   arith wrap
+//@   requires w != nil
+//@   modifies w.total, w.count, w.slots, heap([]*slot)
+//@   ensures [empty-slot-ignored C15] ls == nil || ls.count == 0 ==> w.count == old(w.count) && w.total == old(w.total) && len(w.slots) == old(len(w.slots))
+//@   ensures [slot-accounted C15] ls != nil && ls.count != 0 ==> w.count == wrap64s(old(w.count) + ls.count) && w.total == wrap64s(old(w.total) + ls.total) && len(w.slots) == old(len(w.slots)) + 1
+
+// The exported maximum is at least every slot's maximum (and not negative); the exported
+// minimum is at most every slot's minimum; the average is only computed for a non-zero count.
+//@ func (*window).setMax
+//@   props C15 C12
+//@   requires WinOK(w) && m != nil
+//@   invariant 0: max >= 0 && (forall j int :: 0 <= j && j < $i ==> w.slots[j].max <= max)
+//@   assert at call Metadata.SetInt#0: [exported-max-bounds-every-slot C15] forall j int :: 0 <= j && j < len(w.slots) ==> w.slots[j].max <= arg1
+//@ func (*window).setMin
+//@   props C15 C12
+//@   requires WinOK(w) && m != nil
+//@   invariant 0: min <= w.slots[0].min && (forall j int :: 1 <= j && j < $i + 1 ==> w.slots[j].min >= min)
+//@   assert at call Metadata.SetInt#0: [exported-min-bounds-every-slot C15] forall j int :: 0 <= j && j < len(w.slots) ==> w.slots[j].min >= arg1
+//@ func (*window).setAvg
+//@   props C15 C12
+//@   arith wrap
+//@   requires WinOK(w) && m != nil
+
+// Sliding keeps a suffix of the slots (the slots are in time order).
+//@ func (*window).slide
+//@   props C15 C12
+//@   arith wrap
+//@   requires WinOK(w)
+//@   modifies w.count, w.total, w.slots
+//@   invariant 0: 0 <= $i && 0 <= start && start <= $i && $i <= len(w.slots) && w.slots == old(w.slots) && WinOK(w)
+//@   ensures WinOK(w) && len(w.slots) <= old(len(w.slots))
+//@ func (*window).isCovered
+//@   props C15 C12
+//@   requires WinOK(w)
+//@   modifies w.covered
+// The export functions registered per statistic (method values of this window: setAvg, setMax, setMin).
+//@ func local f in (*window).updateMeta (name, m)
+//@   note the registered export functions are this window's setAvg / setMax / setMin (newWindow); they only read the window and call the metadata sink
+//@ func (*window).updateMeta
+//@   props C15 C12
+//@   arith wrap
+//@   requires WinOK(w) && m != nil && w.stats != nil && (forall k string :: has(w.stats, k) ==> w.stats[k] != nil)
+//@   modifies w.covered, w.count, w.total, w.slots
+//@   invariant 0: WinOK(w)
+
+// update folds the running batch into every window and exports the statistics - all of
+// it, including the deferred export closure, while holding the lock (the closure's
+// precondition is an obligation where the deferred call runs).
+//@ func (*Latency).update$1
+//@   props C15 C12
+//@   trusted
+//@   requires [export-runs-under-the-lock C15] l != nil && wheld(l.mu)
+//@   modifies *
+//@   note body not verified: that every window is well formed (WinOK) when the export runs would need an invariant over all windows and their slot arrays (no sharing), which is not stated; the window functions themselves are verified under WinOK
+//@ func (*Latency).update
+//@   props C15 C12
+//@   arith wrap
+//@   locks l
+//@   requires l != nil && Now != nil && allocated(l.windows) && (forall i int :: 0 <= i && i < len(l.windows) ==> l.windows[i] != nil)
+//@   modifies *
+//@   invariant 0: 0 <= $i && $i <= len(l.windows) && wheld(l.mu) && allocated(l.windows) && (forall i int :: 0 <= i && i < len(l.windows) ==> l.windows[i] != nil) && s != nil
